@@ -66,6 +66,22 @@ def make_cases(rng, tier, n):
                 stats["link_to_plain_input"] = stats.get("link_to_plain_input", 0) + 1
                 cases.append(c)
                 continue
+        if not pipe and rng.random() < 0.12:
+            # a cache object is damaged (by the harness), then dud is asked for a verified copy: the command fails, and like every
+            # checkout it neither adds, changes nor removes a cache object
+            tracked = [e for e in c["init"] if e[0] == "file" and any(e[1] == p or e[1].startswith(p + b"/")
+                       for sp, st in c["stages"] for p, fl in st.get("out", []) if "s" not in fl and "r" not in fl)]
+            if tracked:
+                e = rng.choice(tracked)
+                c["ops"] = [("commit", rng.choice("lc"), []), ("corrupt", "p" + e[1].hex(), "g:%d:%d" % (rng.randrange(1000), rng.choice([0, 3, 70000])))]
+                if rng.random() < 0.7:
+                    c["ops"].append(("rm", e[1]))
+                c["ops"] += [("checkout", "c", False, []), ("status", []), ("checkout", rng.choice("lc"), False, [])]
+                c["tail_ops"] = []
+                c["hist_info"] = dict(commits=1)
+                stats["damaged_object_copy_checkout"] = stats.get("damaged_object_copy_checkout", 0) + 1
+                cases.append(c)
+                continue
         base_ops = c["ops"]
         gen.gen_history(rng, c, rng.randrange(2, 7), allow=("commit", "checkout", "edit", "add", "del", "rmart", "push", "run"))
         c["ops"] = base_ops + c["ops"]
